@@ -7,15 +7,17 @@ cd "$(dirname "$0")/.."
 id=$1; rx=${2:-Seeded}; pkg=${3:-./...}
 export GOFLAGS=-mod=mod GOPROXY=off GOSUMDB=off GOTOOLCHAIN=local PATH=/opt/veriftools/go1.26.8/bin:$PATH
 wt=/tmp/verify-$id
+# the repository's tests bind fixed loopback ports: run them in a private network namespace when possible
+NS=""; if unshare -n true 2>/dev/null; then NS="unshare -n /verif/tools/withlo.sh"; fi
 git -C /repo worktree remove --force $wt 2>/dev/null; rm -rf $wt
 git -C /repo worktree add -q --detach $wt HEAD
 trap 'git -C /repo worktree remove --force '$wt' 2>/dev/null' EXIT
 cp -r seeded/$id/demo/. $wt/
 echo "== demo WITHOUT the change"
-(cd $wt && go test -vet=off -count=1 -timeout 600s -run "$rx" $pkg 2>&1 | grep -E "^(ok|FAIL|---|panic)" | head -8)
+(cd $wt && $NS go test -vet=off -count=1 -timeout 600s -run "$rx" $pkg 2>&1 | grep -E "^(ok|FAIL|---|panic)" | head -8)
 (cd $wt && git apply $OLDPWD/seeded/$id/patch.diff) || { echo "PATCH DOES NOT APPLY"; exit 3; }
 echo "== build WITH the change"; (cd $wt && go build ./... && echo build-ok)
 echo "== demo WITH the change"
-(cd $wt && go test -vet=off -count=1 -timeout 600s -run "$rx" $pkg 2>&1 | grep -E "^(ok|FAIL|---|panic)" | head -8)
+(cd $wt && $NS go test -vet=off -count=1 -timeout 600s -run "$rx" $pkg 2>&1 | grep -E "^(ok|FAIL|---|panic)" | head -8)
 echo "== existing suite WITH the change (demo files removed)"
-(cd $wt && git ls-files --others --exclude-standard | xargs -r rm -f; go test -vet=off -count=1 -timeout 900s ./... 2>&1 | grep -v "no test files" | grep -E "^(ok|FAIL|---)|^ +--- FAIL" | head -20)
+(cd $wt && git ls-files --others --exclude-standard | xargs -r rm -f; $NS go test -vet=off -count=1 -timeout 900s ./... 2>&1 | grep -v "no test files" | grep -E "^(ok|FAIL|---)|^ +--- FAIL" | head -20)
